@@ -3,6 +3,7 @@ command line, run it through harness.runner, and parse what it printed back
 into the label's vocabulary (layout tolerant: see DESIGN 4.1)."""
 from __future__ import annotations
 
+import json
 import os
 import random
 import re
@@ -233,8 +234,12 @@ class OpRunner(object):
         w = self.w
         o = lab['opts']
         argv = []
+        # the switches accepted for compatibility with GNU rm mean nothing; long forms mean what the short ones do
+        r2 = random.Random('rmcompat|%s|%s' % (w.conc.variant_seed, json.dumps(lab.get('args'), sort_keys=True)))
+        if r2.random() < 0.3:
+            argv += r2.sample(['-d', '--directory', '-r', '-R', '--recursive', '-rd'], r2.choice([1, 1, 2]))
         if o['force']:
-            argv.append('-f')
+            argv.append(r2.choice(['-f', '-f', '--force']))
         if o['inter'] != 'off':
             argv.append(self.rnd.choice(['-i', '--interactive']))
         if o['td'] != 'none':
